@@ -127,6 +127,8 @@ pub fn exec(sc: &Scenario, st: &mut Stats) -> Option<Violation> {
                     let loaded = on(Side::Subject, || {
                         let bytes = node.save();
                         let _ = node.save_size();
+                        // the human-readable path must return too (Err on non-finite state is fine)
+                        let _ = node.save_json().ok().and_then(|t| node.load_json(&t).ok());
                         bytes.ok().and_then(|b| node.load(&b).ok())
                     });
                     st.situation(kind, &spec.params, phase(*count, window, *was_reset), 12, last_fault, spec.mode, 0);
@@ -263,7 +265,7 @@ fn grid_a(idx: u64, specs: &[NodeSpec], cyc: &[(Input, Fault)], offsets: u64) ->
                 ops.push(Op::Feed { n: 1, x, f });
                 ops.push(Op::Format { n: 1 });
             }
-            9 => ops.push(Op::RoundTrip { n: 0, times: 1 }),
+            9 => ops.push(Op::RoundTrip { n: 0, times: 1, json: false }),
             10 => {
                 if j % 22 == 10 {
                     ops.push(Op::Reset { n: 0 })
@@ -314,7 +316,7 @@ fn grid_b(idx: u64, specs: &[NodeSpec], starts: &[u64], cyc: &[(Input, Fault)]) 
     ops.push(Op::Feed { n: 1, x: clean_tick(s + 1, shape), f: Fault::Clean });
     ops.push(Op::Feed { n: 0, x: clean_tick(s + 1, shape), f: Fault::Clean });
     ops.push(Op::Feed { n: 0, x: fx, f: ff });
-    ops.push(Op::RoundTrip { n: 0, times: 1 });
+    ops.push(Op::RoundTrip { n: 0, times: 1, json: false });
     ops.push(Op::Feed { n: 0, x: clean_tick(s + 2, shape), f: Fault::Clean });
     ops.push(Op::Reset { n: 0 });
     ops.push(Op::Feed { n: 0, x: fx, f: ff });
@@ -385,7 +387,7 @@ pub fn generate(rng: &mut Rng, tier: Tier) -> Scenario {
             ops.push(Op::Save { n: 0 });
         }
         if rng.chance(0.005) {
-            ops.push(Op::RoundTrip { n: 0, times: 1 });
+            ops.push(Op::RoundTrip { n: 0, times: 1, json: false });
         }
         if rng.chance(0.005) && forks < 3 {
             forks += 1;
